@@ -802,6 +802,84 @@ def pool_check(res, pid, n, focus=None, cfg=None, length=(5, 45), extra_cases=()
     return cases, outs
 
 
+HEADER_SYS = '''From Coq Require Import ZArith List Bool.
+From BV Require Import Lib.Cases Model.Pool Model.PoolSys.
+Import ListNotations. Open Scope Z_scope.
+Definition check_case := PoolSys.check_sys_case.'''
+
+
+def sstep_coq(st):
+    k = st[0]
+    if k == 'submit':
+        return 'SSubmit'
+    if k == 'put':
+        return 'SPut'
+    if k == 'take':
+        return '(STake %d%%nat)' % st[1]
+    if k == 'finish':
+        return '(SFinish %d%%nat)' % st[1]
+    return 'SRecv'
+
+
+def closed_check(res, pid, n):
+    """the closed crash-free composition (coq/Model/PoolSys.v; completion and slot conservation
+    are proved of it in Props/C01.v and Props/C10.v): random schedules of client, task queue,
+    pipe, workers and result pipe with the REAL parent-side code as the parent; the model must
+    allow every step the implementation took, agree on being stuck, and agree on every
+    observation.  At the end of every maximal schedule the implementation must show what the
+    theorem says: every job resolved with its own value, one success callback, all slots back."""
+    rng = random.Random(res.seed * 104729 + sum(map(ord, pid)))
+    reqs = []
+    for k in range(n):
+        cfg = dict(n=rng.choice([1, 2, 2, 3, 4]), putlocks=rng.random() < 0.7)
+        spec = dict(seed=rng.randrange(1 << 30), n=rng.choice([0, 1, 2, 3, 5, 8, 12]))
+        if rng.random() < 0.25:
+            spec['stop_after'] = rng.randrange(0, 6 * spec['n'] + 1)
+        reqs.append(dict(cfg=cfg, closed=spec))
+    outs = []
+    for part in core.chunks(reqs, 200):
+        outs += run_impl(part, timeout=600)
+    terms = []
+    steps = 0
+    nmax = 0
+    for r, o in zip(reqs, outs):
+        steps += len(o['sched'])
+        nmax += bool(o['maximal'])
+        terms.append('(%s, %d%%nat, %s, %s, %s, %s)' % (
+            cfg_coq(r['cfg']), r['closed']['n'], clist(o['sched'], sstep_coq), clist(o['events'], ev_coq),
+            clist(o['obs'], obs_coq), cbool(o['maximal'])))
+        if o['maximal']:
+            last = o['obs'][-1] if o['obs'] else None
+            bad = []
+            if last is not None:
+                if len(last['jobs']) != r['closed']['n']:
+                    bad.append('%d jobs exist, %d were submitted' % (len(last['jobs']), r['closed']['n']))
+                for k, j in enumerate(last['jobs']):
+                    if not j['ready'] or j['val'] != ['ok', k] or j['cb'][0] != 1 or j['cb'][1] != 0:
+                        bad.append('job %d: ready=%s value=%s callbacks=%s' % (k, j['ready'], j['val'], j['cb'][:2]))
+                if r['cfg']['putlocks'] and last['sem'][0] != last['sem'][1]:
+                    bad.append('slots free %s of %s' % (last['sem'][0], last['sem'][1]))
+            elif r['closed']['n']:
+                bad.append('nothing happened')
+            for b in bad[:3]:
+                sig = 'C10:slots-not-all-back-when-nothing-failed' if b.startswith('slots') else 'C01:job-unresolved-when-nothing-failed'
+                res.alarms.append(dict(signature=sig, what='closed system, maximal schedule: ' + b,
+                                       replay=dict(kind='pool-closed', cfg=r['cfg'], closed=r['closed'], sched=o['sched'], events=o['events'])))
+    codes, _ = core.coq_eval(pid + 'sys', HEADER_SYS, core.chunks(terms, 60), timeout=900)
+    for i, code in codes:
+        r, o = reqs[i], outs[i]
+        what = {7001: 'the implementation took a step that is not enabled in the model',
+                7002: 'the parent events issued differ from the model\'s for this schedule',
+                7003: 'the implementation is stuck where the model can still move',
+                7004: 'the model is at its end where the implementation can still move'}.get(code, 'observation differs at event %d' % (code - 1000))
+        res.broken.append(dict(kind='correspondence', name='Model/PoolSys.v vs billiard.pool (closed system): ' + what,
+                               detail=json.dumps(dict(cfg=r['cfg'], closed=r['closed'], sched=o['sched'], events=o['events']))[:3000]))
+        if len(res.broken) > 20:
+            break
+    res.add_cov(closed_system_schedules=len(reqs), closed_system_steps=steps, closed_system_maximal=nmax,
+                closed_system_mismatches=len(codes))
+
+
 def shrink_history(pid, case, sig, rounds=40):
     """greedy one-event-removal minimisation of a history that triggers alarm `sig` on the
     implementation (every round: all one-event-shorter candidates in ONE driver run)"""
@@ -851,6 +929,8 @@ def pool_replay(path):
     d = json.load(open(path))
     rep = d.get('replay') or {}
     c = rep.get('case')
+    if not c and rep.get('kind') == 'pool-closed':
+        c = dict(cfg=rep['cfg'], events=rep['events'])      # the parent events of the closed-system schedule
     if not c:
         print(json.dumps(d, indent=1)[:3000])
         return 1
@@ -947,6 +1027,15 @@ def real_scenarios(res, pid, specs):
                 alarm('C07:join-waits-out-consumption-guard-' + multi, 'join() took %ss with %s' % (r['join_s'], json.dumps(sp)))
             if cen.get('workers_alive') or cen.get('supervisor') or cen.get('task_handler') or cen.get('result_handler'):
                 alarm('C07:left-behind-after-join', 'census after join(): %s' % cen)
+        elif k == 'closed_system':
+            if r['results'] != r['expected']:
+                alarm('C01:job-unresolved-when-nothing-failed', 'real pool, nothing failed: results %s' % r['results'])
+            if r['callbacks'] != [[e[1]] for e in r['expected']] or r['error_callbacks']:
+                alarm('C01:callbacks-not-exactly-once-when-nothing-failed', 'callbacks %s errors %s' % (r['callbacks'], r['error_callbacks']))
+            if r['slots'] is not None and r['slots'][0] != r['slots'][1]:
+                alarm('C10:slots-not-all-back-when-nothing-failed', 'real pool, every job resolved: free slots %s of %s' % tuple(r['slots']))
+            if r['cache_left']:
+                alarm('C01:resolved-jobs-left-in-cache', '%d cache entries left' % r['cache_left'])
         elif k == 'terminate':
             if r['terminate_s'] > 15:
                 alarm('C08:terminate-slow', 'terminate() took %ss' % r['terminate_s'])
